@@ -42,7 +42,8 @@ extended addressing of page-0 operands on the 6800; vectors on the 4004 (dasl pr
 robustness on invalid input (a vector that leaves the image makes dasl print forever: dasl always runs under a
 timeout and an output limit here).
 
-Findings on the pinned tree (known_findings/C15.json, diffs in proposed_fixes/): `org $hex` headers rejected for
+Findings on the pinned tree (known_findings/C15.json; the diffs proposed_fixes/C15-*.diff except the optional
+flow-flags one are applied to /repo by now, so the entries are "fixed" and suppress nothing): `org $hex` headers rejected for
 4004/87C800; vector message printed to stdout; named direct entry refused; 87C800 label `h` suffix and
 register-prefixed ALU immediate without `h`; 6800 `dess`; 4004 JIN falls through into data; 4004 ISZ page rule.
 
